@@ -1646,7 +1646,8 @@ def c12_sites(repo_root, tier):
         if not ("_operand(self.left)" in src and "_operand(self.right, right=True)" in src):
             badc.append(cn)
     fn = em.find("_operand") if em else None
-    oks = fn is not None and all(k in ast.unparse(fn) for k in ("LogicalAndExpression", "LogicalOrExpression", "LogicalNotExpression", "BooleanExpression(")) and all(k in ast.unparse(fn) for k in cmp_classes)
+    oks = fn is not None and all(k in ast.unparse(fn) for k in ("LogicalAndExpression", "LogicalOrExpression", "LogicalNotExpression", "BooleanExpression(")) and all(k in ast.unparse(fn) for k in cmp_classes) \
+        and not any(isinstance(t, ast.If) and any(isinstance(n, ast.Name) and n.id == "right" for n in ast.walk(t.test)) for t in ast.walk(fn))   # on either side
     _ob(obs, "liquid2.builtin.expressions/site.comparison-operands-parenthesised", not badc and oks,
         "every comparison prints its operands through _operand(): logical operands (and comparisons on the right) in parentheses" if not badc and oks
         else f"{badc or '_operand'}: operands are printed bare, `(a or b) == c` becomes `a or b == c`")
@@ -2590,6 +2591,25 @@ def c10_message_vars(repo_root, tier):
     return {"obligations": obs, "samples": [], "trusted": [], "functions": [], "assumptions": []}
 
 
+@register("C02")
+def c02_twin(repo_root, tier):
+    """Totality is shown for the sync methods; it holds on the async path because every async method is the await-erasure of its
+    sync twin (the C03 obligations): the same primitives, the same handlers, the same error tokens."""
+    from .twin import run_twin
+    tw = run_twin(repo_root, tier)
+    return {"obligations": [o for o in tw["obligations"] if o["oid"].endswith("/twin")], "samples": [], "trusted": [], "functions": [], "assumptions": []}
+
+
+@register("C12")
+def c12_twin(repo_root, tier):
+    """`same behaviour after a round trip` is argued for the sync path; the async path evaluates and renders by the await-erasure of
+    the same code (the C03 obligations of the evaluate / render pairs)."""
+    from .twin import run_twin
+    tw = run_twin(repo_root, tier)
+    obs = [o for o in tw["obligations"] if o["oid"].endswith("/twin") and (".evaluate/" in o["oid"] or ".render_to_output/" in o["oid"] or ".render/" in o["oid"])]
+    return {"obligations": obs, "samples": [], "trusted": [], "functions": [], "assumptions": []}
+
+
 @register("C10")
 def c10_twin(repo_root, tier):
     """Names are bound, shadowed and released by the tags' render methods; the precedence they establish is the same on the async
@@ -2609,6 +2629,13 @@ def c14_twin(repo_root, tier):
     obs = [o for o in tw["obligations"] if o["oid"].endswith("/twin") and (".loaders." in o["oid"] or "liquid2.loader:" in o["oid"] or "_build_block_stacks" in o["oid"]
                                                                          or "get_template" in o["oid"] or ".tags.include_tag" in o["oid"] or ".tags.render_tag" in o["oid"] or ".tags.extends_tag" in o["oid"])]
     return {"obligations": obs, "samples": [], "trusted": [], "functions": [], "assumptions": []}
+
+
+@register("C20")
+def c20_probe(repo_root, tier):
+    """A template-string literal denotes its text: the pieces the lexer cuts it into cover every character between the quotes
+    (bounded native probe shared with C17; labelled bounded, not counted as proved)."""
+    return c17_probe(repo_root, tier)
 
 
 @register("C20")
@@ -2819,6 +2846,18 @@ def c16_optional_lookups(repo_root, tier):
                 "the Undefined is made where a name / argument is missing, not depending on an evaluated value" if not bad
                 else f"an Undefined is constructed depending on {bad[0]}: a variable that exists with value nil would fail a strict render")
     _ob(obs, "liquid2/site.undefined-constructors.count", n_ctor >= 12, f"{n_ctor} Undefined construction sites outside liquid2.undefined")
+    # the default policy never fails with UndefinedError: that error is raised by the strict policies' own methods only - no other
+    # module of the package raises it (for an undefined value of whatever policy)
+    raisers = []
+    for m, qual, cls, fn, parent in _all_functions(repo):
+        if m.name == "liquid2.undefined":
+            continue
+        for r in own_nodes(fn):
+            if isinstance(r, ast.Raise) and r.exc is not None and "UndefinedError" in ast.unparse(r.exc.func if isinstance(r.exc, ast.Call) else r.exc):
+                raisers.append(f"{m.name}:{qual} line {r.lineno}")
+    _ob(obs, "liquid2/site.undefined-error-raised-by-policies-only", not raisers,
+        "UndefinedError is raised in liquid2/undefined.py only" if not raisers
+        else f"{raisers[0]} raises UndefinedError itself: it does so for the default (lax) Undefined too, under which a missing variable never fails that way")
     # a strict failure is never swallowed: no handler in the package catches a class wide enough to include UndefinedError
     # (LiquidError, UndefinedError, Exception, BaseException, bare except) without raising again
     n_broad = 0
